@@ -731,6 +731,12 @@ def gen_random(run, n, maxlen):
 
 def check(run):
     run.prove(MODULE, THEOREMS)
+    run.source_tie(['SrcMut', 'SrcTime'], 'GeoVerif.Props.C16Src',
+                   ['GV.C16Src.' + t for t in (
+                       'setDtNone_eq', 'setDtTI_eq', 'setDtDt_eq', 'bufferDt_eq', 'stripDt_eq', 'setProperty_eq', 'defaults_eq',
+                       'call_eq_step', 'startDt_eq', 'endDt_eq', 'properties_eq', 'volume_eq', 'src_obs_congr', 'srcStep_eq',
+                       'srcRun_eq', 'src_obs_coherent', 'src_arg_untouched', 'src_update_coherent',
+                       'src_observations_coherent', 'src_not_inplace', 'src_inplace_refines')])
 
     def tag(ln, a):
         p = ln.split()
